@@ -42,14 +42,14 @@ theorem WF_update {H : Home} {d : Doc} {L : Int} (w : WF H d) (bd : Bounded d L)
   · intro t e q he hq
     simp only [Home.update, hne t e he, if_false] at hq; exact w.parCont t e q he hq
   · exact w.objSorted
-  · intro q qe keys m k' mm he hb hm
+  · intro q qe keys m k' mm he hr hb hm
     have : mm.child ≠ ts := fun h => by
       have := bd.child _ _ _ _ _ _ he hb hm; rw [h] at this; omega
-    simp only [Home.update, this, if_false]; exact w.objMem _ _ _ _ _ _ he hb hm
-  · intro x xe nodes mv n c he hb hn hc
+    simp only [Home.update, this, if_false]; exact w.objMem _ _ _ _ _ _ he hr hb hm
+  · intro x xe nodes mv n c he hr hb hn hc
     have : c ≠ ts := fun h => by
       have := bd.elem _ _ _ _ _ _ he hb hn hc; rw [h] at this; omega
-    simp only [Home.update, this, if_false]; exact w.arrMem _ _ _ _ _ _ he hb hn hc
+    simp only [Home.update, this, if_false]; exact w.arrMem _ _ _ _ _ _ he hr hb hn hc
 
 /-- hypotheses of the depth-1 theorems on the state before the edit -/
 structure Fresh (h : Hist) : Prop where
@@ -114,7 +114,7 @@ theorem goodRemove_of {H : Home} {tw : Ticket → Bool} {d : Doc} {p u ts : Tick
   obtain ⟨hlv, mm, hmm, hmc⟩ := liveMember_some hk
   obtain ⟨ue', hue', hur⟩ := live_elem hlv
   rw [hu] at hue'; injection hue' with hue'; subst hue'
-  have hkey : H.key u = k := by rw [← hmc]; exact (w.objMem _ _ _ _ _ _ hd hb hmm).2.1
+  have hkey : H.key u = k := by rw [← hmc]; exact (w.objMem _ _ _ _ _ _ hd hr hb hmm).2.1
   exact ⟨liveMember d member, ⟨absNode_of_obj hd hr hb, horph, by rw [hkey]; exact hk,
     ⟨_, absNode_of_leaf hu hur hl, absLeaf_isLeaf hl⟩, htw⟩⟩
 
@@ -264,9 +264,9 @@ theorem WF_init {H : Home} (hr : H.par rootId = none) : WF H Doc.init := by
   · intro t e q h hq; obtain ⟨rfl, rfl⟩ := key t e h; rw [hr] at hq; cases hq
   · intro p pe keys m h hb; obtain ⟨rfl, rfl⟩ := key p pe h
     simp only [emptyObj, Body.obj.injEq] at hb; rw [← hb.1]; exact List.Pairwise.nil
-  · intro p pe keys m k mm h hb hm; obtain ⟨rfl, rfl⟩ := key p pe h
+  · intro p pe keys m k mm h _ hb hm; obtain ⟨rfl, rfl⟩ := key p pe h
     simp only [emptyObj, Body.obj.injEq] at hb; rw [← hb.2] at hm; cases hm
-  · intro p pe nodes mv n c h hb; obtain ⟨rfl, rfl⟩ := key p pe h
+  · intro p pe nodes mv n c h _ hb; obtain ⟨rfl, rfl⟩ := key p pe h
     simp [emptyObj] at hb
 
 theorem Bounded_init : Bounded Doc.init 0 := by
